@@ -10,6 +10,7 @@ import (
 	"path/filepath"
 	"strings"
 	"testing/fstest"
+	"time"
 
 	coraza "github.com/corazawaf/coraza/v3"
 	"github.com/corazawaf/coraza/v3/internal/memoize"
@@ -296,6 +297,8 @@ func run(c *runner.Ctx) {
 		if len(h) >= 1 && !c.Mine(h[0]) {
 			return fmt.Sprint(h), false
 		}
+		stopWatch := c.Watch("build-close-history", kase{Hist: append([]int{}, h...)}, 2*time.Minute)
+		defer stopWatch()
 		if c.Expired() {
 			return fmt.Sprint(h), false
 		}
